@@ -7,9 +7,11 @@
 package main
 
 import (
+	"context"
 	"fmt"
 	"strconv"
 	"strings"
+	"time"
 
 	"github.com/oxia-db/oxia/server"
 
@@ -25,7 +27,7 @@ func (c *cb) OnComplete(_ any)        { *c.log = append(*c.log, fmt.Sprintf("%d+
 func (c *cb) OnCompleteError(_ error) { *c.log = append(*c.log, fmt.Sprintf("%d!", c.id)) }
 
 type opT struct {
-	kind byte // N H W C A X
+	kind byte // N H W V C A X   (V = W issued with an already cancelled context: the tracker must treat it as W)
 	a, b int64
 }
 
@@ -107,6 +109,14 @@ func (s *specT) trueCommit(head int64, required int) int64 {
 	return t
 }
 
+var cancelledCtx = func() context.Context {
+	ctx, cancel := context.WithCancel(context.Background())
+	cancel()
+	return ctx
+}()
+
+const callTimeout = 3 * time.Second
+
 func runCase(o *hx.Out, c caseT) {
 	var fired []string
 	q := server.NewQuorumAckTracker(c.rf, c.head, c.commit)
@@ -127,7 +137,9 @@ func runCase(o *hx.Out, c caseT) {
 		i := len(eff) - 1
 		fired = fired[:0]
 		res := "-"
-		func() {
+		done := make(chan struct{})
+		go func() {
+			defer close(done)
 			defer func() {
 				if r := recover(); r != nil {
 					res = "panic"
@@ -138,8 +150,12 @@ func runCase(o *hx.Out, c caseT) {
 				res = fmt.Sprintf("n%d", q.NextOffset())
 			case 'H':
 				q.AdvanceHeadOffset(op.a)
-			case 'W':
-				q.WaitForCommitOffsetAsync(nil, op.a, &cb{id: int(op.b), log: &fired}) //nolint
+			case 'W', 'V':
+				ctx := context.Background()
+				if op.kind == 'V' {
+					ctx = cancelledCtx
+				}
+				q.WaitForCommitOffsetAsync(ctx, op.a, &cb{id: int(op.b), log: &fired})
 				sp.waiters = append(sp.waiters, struct {
 					off int64
 					id  int
@@ -168,6 +184,16 @@ func runCase(o *hx.Out, c caseT) {
 				closed = true
 			}
 		}()
+		select {
+		case <-done:
+		case <-time.After(callTimeout):
+			// the call never returned (a lock left held by an earlier call, a callback that waits): the case is abandoned
+			in := caseT{rf: c.rf, head: c.head, commit: c.commit, ops: eff}.input()
+			o.Violation("tracker:call-blocked", fmt.Sprintf("case {%s}: its last op (#%d %s) did not return within %v", in, i, op, callTimeout))
+			o.Count("seq:abandoned(call blocked)")
+			o.Case("seq", in, strings.Join(append(obs, "blocked"), ";"), in)
+			return
+		}
 		commit, head := q.CommitOffset(), q.HeadOffset()
 		f := "-"
 		if len(fired) > 0 {
@@ -181,6 +207,13 @@ func runCase(o *hx.Out, c caseT) {
 
 		where := fmt.Sprintf("case {%s} after its last op (#%d %s): commit=%d head=%d",
 			caseT{rf: c.rf, head: c.head, commit: c.commit, ops: eff}.input(), i, op, commit, head)
+		if !closed {
+			for _, x := range fired {
+				if strings.HasSuffix(x, "!") {
+					o.Violation("tracker:waiter-failed-while-open", fmt.Sprintf("%s: callback %s got an error although the tracker is not closed (the closure that applies the entry will never run)", where, x))
+				}
+			}
+		}
 		if commit < prevCommit {
 			o.Violation("tracker:commit-regressed", fmt.Sprintf("%s (was %d)", where, prevCommit))
 		}
@@ -256,7 +289,7 @@ func genAdmissible(r *hx.Rng, n int) caseT {
 			if r.Chance(85) {
 				waitID++
 				waited = hd
-				add(opT{kind: 'W', a: hd, b: int64(waitID)})
+				add(opT{kind: waitKind(r), a: hd, b: int64(waitID)})
 			}
 		case k < 58 && uint32(len(hi)) < rf+1: // attach a follower (sometimes one too many)
 			a := hd - int64(r.Intn(5))
@@ -337,7 +370,7 @@ func genEarlyAcks(r *hx.Rng, n int) caseT {
 		}
 		hd = o
 		id++
-		c.ops = append(c.ops, opT{kind: 'H', a: hd}, opT{kind: 'W', a: hd, b: int64(id)})
+		c.ops = append(c.ops, opT{kind: 'H', a: hd}, opT{kind: waitKind(r), a: hd, b: int64(id)})
 		late := r.Intn(nf + 1)
 		for j := 0; j < late; j++ {
 			f := r.Intn(nf)
@@ -375,7 +408,7 @@ func genArbitrary(r *hx.Rng, n int) caseT {
 			}
 		case k < 35:
 			id++
-			c.ops = append(c.ops, opT{kind: 'W', a: head + int64(r.Intn(6)) - 3, b: int64(id)})
+			c.ops = append(c.ops, opT{kind: waitKind(r), a: head + int64(r.Intn(6)) - 3, b: int64(id)})
 		case k < 50:
 			a := head + int64(r.Intn(8)) - 6
 			if a < -1 {
@@ -390,6 +423,13 @@ func genArbitrary(r *hx.Rng, n int) caseT {
 		}
 	}
 	return c
+}
+
+func waitKind(r *hx.Rng) byte {
+	if r.Chance(25) {
+		return 'V'
+	}
+	return 'W'
 }
 
 func parseCaseLine(l string) (caseT, bool) {
